@@ -129,7 +129,7 @@ Theorem C17_group_btree_strict : forall sb addr, strict (p_group_btree sb addr).
 Proof. exact p_group_btree_strict. Qed.
 Print Assumptions C17_group_btree_strict.
 
-(* hdf5.Open with readSignature returning its read error (notes/fixes/c17-read-signature-error.patch):
+(* hdf5.Open with readSignature returning its read error (/repo since 216d529, notes/fixes/c17-read-signature-error.patch):
    open_on f fl c = Open run on the file image f WITH THAT FILE'S SIZE (file.go:86 Stat: the load budget and the root
    address check depend on it) under fault oracle fl *)
 Theorem C17_open_strict : forall fsize fuel hfuel, strict (p_open true fsize fuel hfuel).
@@ -155,8 +155,8 @@ Theorem C17_open_no_panic : forall fuel hfuel (f : bytes) n fl c,
 Proof. exact open_no_panic. Qed.
 Print Assumptions C17_open_no_panic.
 
-(* readSignature as it is in /repo before the patch (a failed read gives ""): outside the fragment.
-   sig_dispatch is the shape of group.go:441-476; witness on the Go code: corpus/C17/unnamed-snod-container.h5,
+(* readSignature as it was in /repo before 216d529 (a failed read gives ""): outside the fragment.
+   sig_dispatch is the shape of group.go:447-484; witness on the Go code: corpus/C17/unnamed-snod-container.h5,
    pread64 #17 failing: Open succeeds with a different tree. *)
 Theorem C17_read_signature_dropped_error_refuted :
   exists f k, run0 f (sig_dispatch 0) = Ok 1 /\ fst (run f (fault_at k FailIO) 0 (sig_dispatch 0)) = Ok 2.
